@@ -57,6 +57,7 @@ var bfVocab = map[string]bool{
 	"Get": true, "GetAll": true, "Has": true, "Split": true, "TrimSpace": true, "Join": true,
 	"BindTo": true, "bindJSON": true, "bindForm": true, "hasJSONOrFormTag": true,
 	"MultipartTo": true, "FormTo": true, "ParseMultipartForm": true, "ParseForm": true,
+	"Lock": true, "Unlock": true, "Load": true, "Store": true, "parseStructInfo": true, "Copy": true,
 }
 
 var bfCfgFields = map[string]bool{"skipDefaults": true, "sources": true}
@@ -85,6 +86,12 @@ func bfCalls(n ast.Node) []string {
 	var out []string
 	ast.Inspect(n, func(x ast.Node) bool {
 		switch x := x.(type) {
+		case *ast.DeferStmt:
+			// a deferred call of the vocabulary: "defer:<name>" at the place where it is registered
+			if name := bfCalleeName(x.Call); bfVocab[name] {
+				out = append(out, "defer:"+name)
+				return false
+			}
 		case *ast.AssignStmt:
 			for _, l := range x.Lhs {
 				if s, ok := l.(*ast.SelectorExpr); ok && bfCfgFields[s.Sel.Name] {
@@ -649,6 +656,78 @@ func genBindFacts(repo string) string {
 		}
 		appItems = bfItems(fn.Body.List)
 	})
+	// ---- the struct-info cache: the key, the lock discipline around the fill
+	var keyFields [][2]string
+	var keyFrom, parseArgs []string
+	var cacheItems []bfItem
+	g.guard("getStructInfo", func() {
+		st := binding.structs["cacheKey"]
+		if st == nil {
+			bfFail(nil, "type cacheKey not found")
+		}
+		for _, f := range st.Fields.List {
+			for _, n := range f.Names {
+				keyFields = append(keyFields, [2]string{n.Name, src(f.Type)})
+			}
+		}
+		fn := bfFn(binding, "", "getStructInfo")
+		params := map[string]int{}
+		k := 0
+		for _, f := range fn.Type.Params.List {
+			for _, n := range f.Names {
+				params[n.Name] = k
+				k++
+			}
+		}
+		paramRef := func(e ast.Expr) string {
+			if id, ok := e.(*ast.Ident); ok {
+				if i, ok := params[id.Name]; ok {
+					return "param" + strconv.Itoa(i)
+				}
+			}
+			return "?(" + src(e) + ")"
+		}
+		nlit, ncall := 0, 0
+		ast.Inspect(fn.Body, func(x ast.Node) bool {
+			switch x := x.(type) {
+			case *ast.CompositeLit:
+				if id, ok := x.Type.(*ast.Ident); ok && id.Name == "cacheKey" {
+					nlit++
+					for _, el := range x.Elts {
+						kv, ok := el.(*ast.KeyValueExpr)
+						if !ok {
+							bfFail(el, "cacheKey literal without field names")
+						}
+						keyFrom = append(keyFrom, src(kv.Key)+"="+paramRef(kv.Value))
+					}
+				}
+			case *ast.CallExpr:
+				if bfCalleeName(x) == "parseStructInfo" {
+					ncall++
+					for _, a := range x.Args {
+						parseArgs = append(parseArgs, paramRef(a))
+					}
+				}
+			}
+			return true
+		})
+		if nlit != 1 || ncall != 1 {
+			bfFail(fn, "%d cacheKey literals and %d calls of parseStructInfo", nlit, ncall)
+		}
+		cacheItems = bfItems(fn.Body.List)
+	})
+	g.b.WriteString("/-- the fields of `cacheKey` (name, type) -/\ndef cacheKey_fields : List (String × String) := [")
+	for i, f := range keyFields {
+		if i > 0 {
+			g.b.WriteString(", ")
+		}
+		fmt.Fprintf(&g.b, "(%s, %s)", leanStr(f[0]), leanStr(f[1]))
+	}
+	g.b.WriteString("]\n\n")
+	fmt.Fprintf(&g.b, "/-- `getStructInfo`: what its one `cacheKey{…}` literal is built from (field=param<i>: the i-th parameter of the function) -/\ndef getStructInfo_key : List String := %s\n\n", bfStrs(keyFrom))
+	fmt.Fprintf(&g.b, "/-- `getStructInfo`: the arguments of its one call of `parseStructInfo` -/\ndef getStructInfo_parseArgs : List String := %s\n\n", bfStrs(parseArgs))
+	g.items("getStructInfo_items", "`getStructInfo`: its top-level statements", cacheItems)
+
 	// ---- app.Context.bindInternal: the arms of the switch on the content type; bindForm's own test of the header
 	type ctArm struct {
 		lits  []string
